@@ -13,3 +13,14 @@ def c19_vector_parameter_nan_call(case, what):
     if case.get("opts", {}).get("expand_vectors"):
         return False
     return re.search(r"parameter\s+Real\s+\w+\s*\[", case.get("text", "")) is not None
+
+
+@known_predicate
+def c19_symbolic_array_attribute_not_picklable(case, what):
+    """transfer_model(cache=True) raising "Cannot pickle MX objects" for a model with an array attribute that has
+    symbolic elements (a list of MX is pickled as is by Variable.to_dict)."""
+    if not isinstance(case, dict) or "for a model that compiles with caching off" not in what:
+        return False
+    if "raised Exception (Cannot pickle MX objects" not in what:
+        return False
+    return re.search(r"=\s*\{[^}]*[A-Za-z_][^}]*\}", case.get("text", "")) is not None
